@@ -57,12 +57,23 @@ def gen_case(rng, mode=None, stochastic=None, custom_kind=None, adc=None, clock=
                                             "field_vs_arg"]), max_runs=12)
     if case["mode"] == "custom":
         # the parallel path's own conversion of the table: single-placeholder lists and shifted column ranges
-        custom_kind = custom_kind or rng.choice(["plain", "w1", "shift", "both"])
+        custom_kind = custom_kind or rng.choice(["plain", "w1", "shift", "both", "vector_first"])
         if custom_kind in ("w1", "both"):
-            cands = [p for p in case["params"] if p["key"].startswith("pipeline.")]
+            cands = [p for p in case["params"] if p["key"].startswith("pipeline.") and not p.get("on_disabled_model")]
             for p in cands:
                 if p is cands[0] or rng.random() < 0.3:
                     p["width"], p["decl"], p["enabled"] = 1, ["_"], True
+        if custom_kind == "vector_first":
+            # a list of placeholders FOLLOWED by further enabled parameters: the column cursor must advance by its width
+            cands = [p for p in case["params"] if p["key"].startswith("pipeline.") and not p.get("on_disabled_model")]
+            if cands:
+                v = cands[0]
+                v["width"], v["enabled"] = rng.choice([2, 3]), True
+                v["decl"] = ["_"] * v["width"]
+                rest = [p for p in case["params"] if p is not v]
+                for p in rest:
+                    p["enabled"] = not p.get("on_disabled_model")
+                case["params"] = [v] + rest
         case["table"] = c05.gen_table(rng, case["params"])
         case["col_start"] = rng.choice([1, 2]) if custom_kind in ("shift", "both") else 0
     if adc is None:
@@ -353,7 +364,8 @@ CAL_ROWS, CAL_COLS = 3, 4
 def cal_probe_pipeline(case):
     import pyx
 
-    return pyx.make_pipeline({"charge_generation": [
+    return pyx.make_pipeline({"photon_collection": [{"name": "wait", "func": "obsprobes.pause", "arguments": {"ms": 3.0}}],
+                              "charge_generation": [
         {"name": "cal", "func": "obsprobes.level",
          "arguments": {"level": 1.0, "tilt": 0.0, "delay_ms": 1.0,
                        "noise": 0.25 if case["pipeline_seed"] is not None else 0.0,
@@ -482,8 +494,12 @@ def body(ck: common.Check):
     c = gen_case(rng, mode="product", stochastic=False, adc=False, clock=False, off_model=True)
     c["force_processes"] = True
     cases.append(("directed", c))
-    for kind in ("w1", "shift", "both"):
-        cases.append(("directed", gen_case(rng, mode="custom", stochastic=False, custom_kind=kind, clock=False)))
+    for kind in ("w1", "shift", "both", "vector_first"):
+        for _ in range(30):
+            c = gen_case(rng, mode="custom", stochastic=False, custom_kind=kind, clock=False, off_model=False)
+            if kind != "vector_first" or sum(p["enabled"] for p in c["params"]) >= 2:
+                break
+        cases.append(("directed", c))
     for _ in range(5 if quick else 150):
         cases.append(("random", gen_case(rng)))
     answers = LeanDriver("C07").batch([lean_request(c) for _, c in cases])
